@@ -7,6 +7,7 @@ R2 [DT]     for every other integer value (finite exact partition: the argument 
             only compared with constants and used as an index) the function returns
             NULL and performs no load from a name table outside its bounds.
 """
+import re
 from engine import dt, flow, vf
 from engine.pdb import AnalysisBroken
 
@@ -63,6 +64,28 @@ def _resolve(fl, fn, pdb, ref, facts, events, depth=8):
         if c is None:
             return ("unknown", "select")
         return _resolve(fl, fn, pdb, i["a"] if c else i["b"], facts, events, depth - 1)
+    if i.op == "getelementptr":
+        # a row of a two-dimensional character table (const char names[N][M]): the returned pointer is the row itself, the string
+        # it designates ends at the first NUL - which a name of M or more characters does not have inside its row
+        path = list(i["path"])
+        base = fn.inst(i["base"]) if not i["base"].startswith("@") else None
+        if base is not None and base.op == "getelementptr" and all(x == "[#0]" for x in path):
+            path = list(base["path"])
+            i = base
+        if i["base"].startswith("@") and len(path) >= 2 and path[0] == "[#0]" and all(x == "[#0]" for x in path[2:]):
+            tab = pdb.glob_in(fn.unit, i["base"][1:])
+            m = re.match(r"^\[(\d+) x \[(\d+) x i8\]\]$", (tab or {}).get("type", ""))
+            if tab and tab.get("const") and m and isinstance(tab.get("init"), list):
+                idx = flow.av_single(flow.Eval(fl, facts).val(path[1][1:-1]))
+                n, width = int(m.group(1)), int(m.group(2))
+                if idx is None or not 0 <= idx < n:
+                    return ("oob", i["base"][1:], idx, n)
+                row = tab["init"][idx] if idx < len(tab["init"]) else None
+                text = row["str"] if isinstance(row, dict) and "str" in row else ("" if row in (None, 0) else None)
+                if text is None:
+                    return ("unknown", "row")
+                return ("str", text if len(text) < width else text + "<no terminator inside the row>")
+        return ("unknown", "getelementptr")
     if i.op == "load":
         for e in events:
             if e[0] == "tload" and e[1] == ref:
